@@ -342,7 +342,7 @@ func (g *Gen) GenFunc(fn *ssa.Function, spec *FuncSpec) (vc *FnVC, err error) {
 	v := &FnVC{g: g, fn: fn, spec: spec, sf: g.specFileOf(spec), declared: map[string]string{}, regs: map[ssa.Value]Val{},
 		edges: map[[2]int]*edgeInfo{}, reach: map[*ssa.BasicBlock]*Term{}, counters: map[string]int{},
 		locals: map[*ssa.Alloc]string{}, lstruct: map[*ssa.Alloc]bool{}, heapSorts: map[string]string{},
-		loopInfo: map[*Loop]*loopState{}, usedSpecs: map[string]bool{}, ghostVars: map[string]types.Type{}, callOrd: map[string]int{}}
+		loopInfo: map[*Loop]*loopState{}, blockCases: map[*ssa.BasicBlock][]*Term{}, paramConsts: map[string]bool{}, usedSpecs: map[string]bool{}, ghostVars: map[string]types.Type{}, callOrd: map[string]int{}}
 	v.name = fn.Pkg.Pkg.Name() + "." + funcKey(fn)
 	v.pkg = fn.Pkg.Pkg
 	defer func() {
@@ -404,16 +404,22 @@ func (g *Gen) GenFunc(fn *ssa.Function, spec *FuncSpec) (vc *FnVC, err error) {
 	env := &Env{v: v, g: g, pkg: fn.Pkg.Pkg, sf: v.sf, vars: map[string]Val{}, st: v.entry, freshBase: v.entry.alloc}
 	env.old = env
 	v.entryEnv = env
-	for _, p := range fn.Params {
+	for i, p := range fn.Params {
 		s := sortOf(p.Type())
 		if s == "STRUCT" || s == "TUPLE" {
 			unsupported("parameter %s of type %s", p.Name(), p.Type())
 		}
 		t := v.declare("p_"+sanitize(p.Name()), s)
+		v.paramConsts[t.Name] = true
 		v.assume(True, v.typeInv(t, p.Type(), v.entry), "type")
 		val := Val{T: t, Typ: p.Type()}
 		v.regs[p] = val
 		env.vars[p.Name()] = val
+		if i == 0 && fn.Signature.Recv() != nil {
+			if _, isPtr := p.Type().Underlying().(*types.Pointer); isPtr && spec.Opts["nil-receiver"] != "true" {
+				v.assume(True, Ne(t, IntLit(0)), "receiver-non-nil")
+			}
+		}
 	}
 	for _, fvv := range fn.FreeVars {
 		unsupported("free variable %s (closure body)", fvv.Name())
@@ -473,6 +479,7 @@ func (g *Gen) preamble(v *FnVC) string {
 	fmt.Fprintf(&b, "(define-fun valid-slice ((s Slice)) Bool (and (>= (s-ref s) 0) (>= (s-off s) 0) (>= (s-len s) 0) (<= (s-len s) (s-cap s)) (<= (+ (s-off s) (s-cap s)) %s) (=> (= (s-ref s) 0) (= (s-cap s) 0))))\n", maxLenBig.String())
 	b.WriteString("(define-fun godiv ((a Int) (b Int)) Int (ite (>= a 0) (div a b) (- (div (- a) b))))\n")
 	b.WriteString("(define-fun gomod ((a Int) (b Int)) Int (- a (* b (ite (>= a 0) (div a b) (- (div (- a) b))))))\n")
+	b.WriteString("(declare-fun trig (Int) Bool)\n(assert (forall ((x Int)) (! (trig x) :pattern ((trig x)))))\n")
 	// pow2 table
 	b.WriteString("(define-fun pow2 ((n Int)) Int ")
 	for i := 0; i <= 64; i++ {
@@ -481,7 +488,7 @@ func (g *Gen) preamble(v *FnVC) string {
 	b.WriteString("0")
 	b.WriteString(strings.Repeat(")", 65))
 	b.WriteString(")\n")
-	for _, f := range []string{"bvand", "bvor", "bvxor", "bvandnot"} {
+	for _, f := range []string{"int_and", "int_or", "int_xor", "int_andnot"} {
 		fmt.Fprintf(&b, "(declare-fun %s (Int Int) Int)\n", f)
 	}
 	b.WriteString(g.specFuncDefs(v))
@@ -554,7 +561,10 @@ func (g *Gen) specFuncDefs(v *FnVC) string {
 }
 
 // Query renders one obligation as an SMT-LIB script.
-func (o *Obligation) Query() string {
+func (o *Obligation) Query() string { return o.QueryCase(nil) }
+
+// QueryCase renders the obligation under an extra case assumption.
+func (o *Obligation) QueryCase(extra *Term) string {
 	v := o.vc
 	var b strings.Builder
 	b.WriteString(v.g.preamble(v))
@@ -564,14 +574,55 @@ func (o *Obligation) Query() string {
 	}
 	// later declarations may be referenced by earlier definitions only if they
 	// were created earlier, so the prefix is closed.
-	for _, d := range v.defs[:o.NDef] {
+	anc := v.ancestorsOf(o.Block)
+	for i, d := range v.defs[:o.NDef] {
+		if db := v.defBlocks[i]; anc != nil && db != nil && !anc[db] {
+			continue
+		}
 		b.WriteString("(assert " + d.String() + ")\n")
 	}
 	for _, a := range v.assumes[:o.NAssume] {
+		if anc != nil && a.block != nil && !anc[a.block] {
+			continue
+		}
 		b.WriteString("(assert " + Implies(a.guard, a.f).String() + ")\n")
 	}
 	b.WriteString("(assert " + o.Guard.String() + ")\n")
+	if extra != nil {
+		b.WriteString("(assert " + extra.String() + ")\n")
+	}
 	b.WriteString("(assert (not " + o.Goal.String() + "))\n")
 	b.WriteString("(check-sat)\n")
 	return b.String()
+}
+
+// ancestorsOf: blocks that can reach b in the acyclic (cut) CFG, including b.
+// Facts established in other blocks cannot matter on a path to b and are
+// dropped from b's queries (dropping assumptions is always sound).
+func (v *FnVC) ancestorsOf(b *ssa.BasicBlock) map[*ssa.BasicBlock]bool {
+	if b == nil || v.cfg == nil {
+		return nil
+	}
+	if v.ancestors == nil {
+		v.ancestors = map[*ssa.BasicBlock]map[*ssa.BasicBlock]bool{}
+	}
+	if m, ok := v.ancestors[b]; ok {
+		return m
+	}
+	m := map[*ssa.BasicBlock]bool{}
+	var rec func(x *ssa.BasicBlock)
+	rec = func(x *ssa.BasicBlock) {
+		if m[x] {
+			return
+		}
+		m[x] = true
+		for _, p := range x.Preds {
+			if !v.cfg.BackEdge[[2]int{p.Index, x.Index}] {
+				rec(p)
+			}
+		}
+	}
+	rec(b)
+	v.ancestors[b] = m
+	return m
 }
